@@ -13,6 +13,7 @@ import (
 	"os"
 	"path/filepath"
 	"strconv"
+	"strings"
 	"sync"
 
 	"github.com/nuetzliches/hookaido/internal/admin"
@@ -36,6 +37,7 @@ type nonceCfg struct {
 	secrets   []string
 	extra     bool // an unrelated extra route
 	hookGone  bool // the HMAC route is absent
+	noAuth    bool // the route exists but has no auth hmac
 	managed   bool // a managed endpoint exists on another route
 	sigHeader string
 }
@@ -44,15 +46,19 @@ func (c nonceCfg) text() string {
 	var b bytes.Buffer
 	b.WriteString("ingress {\n  listen 127.0.0.1:0\n}\npull_api {\n  listen 127.0.0.2:0\n  auth token raw:tok\n}\nadmin_api {\n  listen 127.0.0.3:0\n}\n")
 	if !c.hookGone {
-		b.WriteString("/hook {\n  queue { backend memory }\n  auth hmac {\n")
-		for _, s := range c.secrets {
-			fmt.Fprintf(&b, "    secret raw:%s\n", s)
+		b.WriteString("/hook {\n  queue { backend memory }\n")
+		if !c.noAuth {
+			b.WriteString("  auth hmac {\n")
+			for _, s := range c.secrets {
+				fmt.Fprintf(&b, "    secret raw:%s\n", s)
+			}
+			fmt.Fprintf(&b, "    tolerance %ds\n", c.tolSec)
+			if c.sigHeader != "" {
+				fmt.Fprintf(&b, "    signature_header %q\n", c.sigHeader)
+			}
+			b.WriteString("  }\n")
 		}
-		fmt.Fprintf(&b, "    tolerance %ds\n", c.tolSec)
-		if c.sigHeader != "" {
-			fmt.Fprintf(&b, "    signature_header %q\n", c.sigHeader)
-		}
-		b.WriteString("  }\n  pull { path /pull/h }\n}\n")
+		b.WriteString("  pull { path /pull/h }\n}\n")
 	}
 	b.WriteString("/keep {\n  queue { backend memory }\n  pull { path /pull/keep }\n}\n")
 	if c.extra {
@@ -140,7 +146,7 @@ func RunNonce(w io.Writer, scratch, name string, ops []NonceOp) (int, error) {
 	serial := 0
 	mk := func(nonce string, ts int64) capturedReq {
 		serial++
-		body := []byte(fmt.Sprintf(`{"tok":"%s-%d"}`, name, serial))
+		body := []byte(fmt.Sprintf(`{"tok":"%s-%d","pad":"%s"}`, name, serial, strings.Repeat("p", 96*1024)))
 		return capturedReq{nonce: nonce, ts: ts, body: body, sig: sign("s1", ts, body)}
 	}
 	// the abstract timestamp handed to TLC is in seconds relative to l0.Base so that it fits 32 bits
@@ -176,6 +182,14 @@ func RunNonce(w io.Writer, scratch, name string, ops []NonceOp) (int, error) {
 			}
 			ok = inst.Reload("verif") && ok
 			cfg.hookGone = false
+		case "auth_removed_readded":
+			// the route stays, its auth hmac block goes and comes back
+			cfg.noAuth = true
+			if err := write(); err != nil {
+				return err
+			}
+			ok = inst.Reload("verif") && ok
+			cfg.noAuth = false
 		case "widen":
 			cfg.tolSec = 6
 		case "narrow":
